@@ -244,11 +244,40 @@ func splitRanges(rs [][2]int, n int, sh Shard) []Shard {
 
 // yearShards: standard decomposition. quick = seam windows + stride years; thorough = all years.
 func yearShards(tier string, seed int64, maxYear int, kind string) []Shard {
+	return yearShardsWith(tier, seed, maxYear, kind, nil)
+}
+
+// cycleYears: the images of the reform year 1582 under the 400-year Gregorian cycle (146097 days = 20871 weeks):
+// shortcuts by whole cycles meet the Julian part of 1582 exactly from these years. Added to the quick year set of
+// the cheap civil-arithmetic checks (C04, C15).
+func cycleYears() []int {
+	var ys []int
+	for y := 1582 % 400; y <= 9998; y += 400 {
+		ys = append(ys, y)
+	}
+	return ys
+}
+
+func yearShardsWith(tier string, seed int64, maxYear int, kind string, extra []int) []Shard {
 	base := Shard{Kind: kind, Tier: tier, Seed: seed}
 	if tier == "thorough" {
 		return splitRanges([][2]int{{1, maxYear}}, 64, base)
 	}
-	return splitRanges(toRanges(quickYears(seed, maxYear)), 48, base)
+	in := map[int]bool{}
+	for _, y := range quickYears(seed, maxYear) {
+		in[y] = true
+	}
+	for _, y := range extra {
+		if y >= 1 && y <= maxYear {
+			in[y] = true
+		}
+	}
+	ys := make([]int, 0, len(in))
+	for y := range in {
+		ys = append(ys, y)
+	}
+	sort.Ints(ys)
+	return splitRanges(toRanges(ys), 48, base)
 }
 
 // ---------------------------------------------------------------------------------------------
